@@ -236,7 +236,7 @@ func implSequences(b *binding, impl implAuto, depth int) [][]string {
 var engineBroken sync.Map
 
 type engineCounters struct {
-	validated, cut, terminal int
+	validated, cut, terminal, refusals int
 }
 
 func roleName(r protocol.ProtocolRole) string {
@@ -281,6 +281,9 @@ func runEngineTrace(rec *evi.Recorder, b *binding, impl implAuto, role protocol.
 	}
 	if res.terminal {
 		ec.terminal++
+	}
+	if res.refusalFinal {
+		ec.refusals++
 	}
 	if b.spec == nil {
 		return
@@ -333,10 +336,61 @@ func TestC16(t *testing.T) {
 	realDepth := rec.Pick(2, 3)
 
 	t0 := time.Now()
+	allBindings := bindings()
+	// ---- history independence, part 1: what callers do with copies and with
+	// differently configured instances must leave the package-level maps untouched
+	snap0 := map[string]mapSnap{}
+	for _, b := range allBindings {
+		if b.sm != nil {
+			snap0[b.id] = snapshotMap(b.sm)
+		}
+	}
+	comparePkgMaps := func(after string) {
+		for _, b := range allBindings {
+			if b.sm == nil {
+				continue
+			}
+			rec.Eval()
+			for _, d := range diffSnap(snap0[b.id], snapshotMap(b.sm)) {
+				vfail(fmt.Sprintf("purity:%s:%s:%s:%s", b.id, d.state, d.field, after),
+					fmt.Sprintf("%s: the package-level state map changed (%s): state %s, %s: %s", b.id, after, d.state, d.field, d.detail), nil)
+			}
+		}
+	}
+	for _, b := range allBindings {
+		if b.sm == nil {
+			continue
+		}
+		rec.Eval()
+		cp := b.sm.Copy()
+		for _, d := range diffSnap(snap0[b.id], snapshotMap(cp)) {
+			vfail(fmt.Sprintf("copy:%s:%s:%s", b.id, d.state, d.field),
+				fmt.Sprintf("%s: StateMap.Copy() differs from the map it copies: state %s, %s: %s", b.id, d.state, d.field, d.detail), nil)
+		}
+		mutateCopy(cp)
+		rec.NonTrivial("copy-mutation "+b.id, map[string]any{"binding": b.id, "history": "Copy(); replace every entry (agency, timeouts, limit, appended transitions); drop a state; add a state"})
+	}
+	comparePkgMaps("after-copies-were-mutated")
+	customTimeout = 7777 * time.Millisecond
+	nCustom := 0
+	for _, b := range allBindings {
+		if b.real == nil {
+			continue
+		}
+		for _, role := range []protocol.ProtocolRole{protocol.ProtocolRoleClient, protocol.ProtocolRoleServer} {
+			e := newEng(b, role, true, nil)
+			e.close()
+			nCustom++
+		}
+	}
+	customTimeout = 0
+	rec.SetExtra("custom_config_instances_created", nCustom)
+	comparePkgMaps("after-custom-instances")
+
 	// ---- build the implementation automata
 	var autos []*builtAuto
 	learnedProbes := 0
-	for _, b := range bindings() {
+	for _, b := range allBindings {
 		ba := &builtAuto{b: b}
 		if b.sm != nil {
 			ba.impl = newMapAuto(b)
@@ -371,10 +425,28 @@ func TestC16(t *testing.T) {
 	}
 	rec.SetExtra("learned_probes", learnedProbes)
 	tLearn := time.Since(t0)
+	// the verdict of (state, symbol) must not depend on what was asked before
+	verdictTable := func() map[string]string {
+		out := map[string]string{}
+		for _, ba := range autos {
+			if _, ok := ba.impl.(*mapAuto); !ok {
+				continue
+			}
+			for _, st := range ba.impl.states() {
+				for _, sy := range symNames(ba.b) {
+					to, ok := ba.impl.step(st, sy)
+					out[ba.b.id+"|"+st+"|"+sy] = fmt.Sprint(ok, to)
+				}
+			}
+		}
+		return out
+	}
+	verdicts0 := verdictTable()
 
 	summary := map[string]any{}
 	codecPairs, totalEvaluated := 0, 0
 	ec, ecReal := &engineCounters{}, &engineCounters{}
+	nTagProbes := 0
 	for _, ba := range autos {
 		b, impl := ba.b, ba.impl
 		info := map[string]any{"states": impl.states(), "initial": impl.initial()}
@@ -437,8 +509,31 @@ func TestC16(t *testing.T) {
 			}
 			info["real_object_sequences_per_role"] = len(rseqs)
 		}
+		// special tag values on the wire, in the initial state and (quick: one, thorough:
+		// every) other non-terminal state
+		acc := shortestAccess(impl, symNames(b))
+		probeStates := []string{impl.initial()}
+		for _, st := range impl.states() {
+			if st != impl.initial() && impl.agencyOf(st) != agNone && acc[st] != nil && (rec.Thorough() || len(probeStates) < 2) {
+				probeStates = append(probeStates, st)
+			}
+		}
+		for _, st := range probeStates {
+			nTagProbes += probeWireTags(b, impl, b.sm == nil, st, acc[st], rec.Eval, vfail)
+		}
+		// a server that restarts its protocol after the client's Done starts over
+		if rc, ok := restartCases[b.id]; ok {
+			rec.Eval()
+			if why := restartProbe(b, impl, rc, vfail); why == "" {
+				rec.Class("restart_initial_state_confirmed")
+				rec.NonTrivial("restart "+b.id, map[string]any{"binding": b.id, "history": "real server driven to the terminal state; new protocol instance probed"})
+			} else {
+				rec.Class("restart_probe_no_verdict: " + why)
+			}
+		}
 		summary[b.id] = info
 	}
+	rec.SetExtra("wire_tag_probes", nTagProbes)
 	rec.SetExtra("automata", summary)
 	rec.SetExtra("phase_seconds", map[string]float64{"learn": tLearn.Seconds(), "static_and_enumerated_engine": (time.Since(t0) - tLearn).Seconds()})
 	rec.SetExtra("codec_state_msg_pairs", codecPairs)
@@ -449,6 +544,15 @@ func TestC16(t *testing.T) {
 	// ---- rapid: guided long walks, judged statically and on the engine
 	maxLen := rec.Pick(40, 60)
 	defer func() {
+		// history independence, part 2: after every engine, real object, refusal, stop
+		// and restart of this run
+		comparePkgMaps("after-instances-ran")
+		for k, v := range verdictTable() {
+			if verdicts0[k] != v {
+				vfail("nondeterministic:"+k, fmt.Sprintf("the state-map verdict for %s was %s at the start of the run and %s at its end", k, verdicts0[k], v), nil)
+			}
+		}
+		rec.SetExtra("traces_ending_in_final_refusal", ec.refusals)
 		rec.SetExtra("traces_validated_against_impl", ec.validated)
 		rec.SetExtra("n_traces_validated_against_impl", ec.validated) // n_*: summed over shards by the driver
 		rec.SetExtra("n_real_object_traces_validated", ecReal.validated)
